@@ -857,6 +857,16 @@ def py_scan(text):
     return (v, text[end:])
 
 
+def py_raw_decode(text):
+    try:
+        v, end = json.JSONDecoder().raw_decode(text)
+    except (json.JSONDecodeError, RecursionError):
+        return None
+    if not isinstance(v, dict) or not all(isinstance(x, str) for x in v.values()):
+        return None
+    return (v, text[end:])
+
+
 def decode_extract(m):
     return safe_call(lambda: (unS(m[0]), [dep_canon(dep_from_payload(unS(p))) for p in m[1]]))
 
@@ -1104,6 +1114,20 @@ def run(ctx: Ctx) -> None:
     scans += ['"' + "".join(rng.choice(lfr) for _ in range(rng.randrange(0, 5))) + '"' + hostile(rng, 3)
               for _ in range(ctx.budget(800, 20000))]
     batch.add("scan", [[10, S(s)] for s in scans])
+    # ---- B2'': flat objects of string values: json.dumps, and raw_decode of what it wrote (neutralised, with tails)
+    pool = strs[-ctx.budget(3000, 30000):]
+    objs = [[(rng.choice(pool), rng.choice(pool)) for _ in range(rng.choice([0, 1, 1, 2, 3, 5, 9]))]
+            for _ in range(ctx.budget(1200, 20000))]
+    objs = [o for o in objs if len({k for k, _ in o}) == len(o)]
+    batch.add("objenc", [[11, [[S(k), S(v)] for k, v in o]] for o in objs])
+    otexts = []
+    for k, o in enumerate(objs):
+        d = json.dumps(dict(o))
+        d = d.replace("</", "<\\/") if k % 3 else d
+        otexts.append(d + rng.choice(tails))
+    otexts += [t[:rng.randrange(0, len(t) + 1)] for t in otexts[:ctx.budget(300, 3000)]]       # truncated: errors
+    otexts += ['{}', '{', '{"a"}', '{"a": }', '{"a": "b",}', '{"a": "b", }', '{"a": "b"', '{"a":"b"}', '']
+    batch.add("objdec", [[12, S(t)] for t in otexts])
 
     # ---- the Coq specification functions used as oracles ---------------------------------------
     probes = [hostile(rng, 4) for _ in range(ctx.budget(500, 10000))] + \
@@ -1341,6 +1365,25 @@ def run(ctx: Ctx) -> None:
     diff(ctx, "json.decoder.scanstring(text, 1) vs read_string", scans, batch.get("scan"),
          impl=py_scan, decode=lambda m: None if m == [] else (unS(m[0][0]), unS(m[0][1])),
          nontrivial=lambda l: "\\" in l and not l.endswith('"'), kind=lambda s: "string literal followed by text")
+    diff(ctx, "json.dumps(flat dict of str) vs enc_flat_obj", objs, batch.get("objenc"),
+         impl=lambda o: json.dumps(dict(o)), decode=unS,
+         nontrivial=lambda o: len(o) > 1, kind=lambda o: "flat dict for json.dumps")
+    # the model scanner accepts exactly the separators json.dumps writes: where it returns a result, raw_decode
+    # must return the same; where raw_decode fails, it must fail (JSON whitespace variants are outside the model)
+    obad = []
+    n_some = 0
+    for t, m in zip(otexts, batch.get("objdec")):
+        ctx.count(("objdec", t), "\\" in t, "flat object text for raw_decode")
+        pv = py_raw_decode(t)
+        mv = None if (isinstance(m, tuple) or m == []) else ([(unS(kv[0]), unS(kv[1])) for kv in m[0][0]], unS(m[0][1]))
+        n_some += mv is not None
+        if isinstance(m, tuple) or (mv is not None and (pv is None or (dict(mv[0]), mv[1]) != pv)) or (pv is None and mv is not None):
+            obad.append({"case": t, "impl_output": repr(pv), "model_output": repr(mv)})
+    ctx.corr_cases += len(otexts)
+    ctx.obligation(f"correspondence json.JSONDecoder().raw_decode vs dec_flat_obj ({len(otexts)} texts, {n_some} accepted by the model)",
+                   not obad and n_some >= len(objs))
+    if obad:
+        ctx.extra["disagree_objdec"] = obad[:3]
     ctx.obligation(f"Coq has_close_tag == the oracle's '</script' test ({len(probes)} strings)",
                    all(bool(a) == spec_has_close_tag(s) for a, s in zip(batch.get("hct"), probes)))
     ctx.obligation("Coq stable_unique == the oracle's first-occurrences (300 lists)",
